@@ -92,7 +92,9 @@ func (f *Dox) Call(s *slip.Scope, args slip.List, depth int) (result slip.Object
 			}
 		}
 		for _, sb := range steps {
-			ns.UnsafeLet(sb.sym, ns.Eval(sb.step, d2))
+			if sb.hasStep { // a variable without a step-form keeps its value
+				ns.UnsafeLet(sb.sym, ns.Eval(sb.step, d2))
+			}
 		}
 	}
 	return
